@@ -569,7 +569,7 @@ V("C04-rehydrate-full", "C04", ["C04.R3"], [("formulaic/materializers/types/scop
 V("C04-rehydrate-drops-scale", "C04", ["C04.R3"], [("formulaic/materializers/types/scoped_term.py", "                for factor in self.factors\n            ],\n            scale=self.scale,\n        )\n\n    @property", "                for factor in self.factors\n            ],\n        )\n\n    @property")])
 V("C04-structure-half-reused", "C04", ["C04.R3"], [(BASE, "        if spec.structure:\n            cols = list(self._enforce_structure(cols, spec, drop_rows))", "        if spec.structure and spec.ensure_full_rank:\n            cols = list(self._enforce_structure(cols, spec, drop_rows))")])
 V("C04-base-parser-unsanitised", "C04", ["C04.R4"], [(FPARSER, "        return sanitize_tokens(tokenize(formula))", "        return tokenize(formula)")])
-V("C04-state-key-raw", "C04", ["C04.R4"], [(STATEFUL, "            stateful_nodes[format_expr(node)] = cast(ast.Call, node)", "            stateful_nodes[ast.unparse(node).strip()] = cast(ast.Call, node)")])
+V("C04-state-key-raw", "C04", ["C04.R4"], [(STATEFUL, "            stateful_nodes.append((format_expr(node), cast(ast.Call, node)))", "            stateful_nodes.append((ast.unparse(node).strip(), cast(ast.Call, node)))")])
 V("C04-evaluate-fresh-state", "C04", ["C04.R4"], [(BASE, "                spec.transform_state,\n                spec,\n                variables=variables,", "                {},\n                spec,\n                variables=variables,")])
 V("C04-getstate-all", "C04", ["C04.R5"], [(SPEC, "            k: v for k, v in self.__dict__.items() if k in self.__dataclass_fields__", "            k: v for k, v in self.__dict__.items() if k != 'transform_state'")])
 V("C04-matrix-reduce-drops-spec", "C04", ["C04.R5"], [("formulaic/model_matrix.py", "        return ModelMatrix, (self.__wrapped__, self._self_model_spec)", "        return ModelMatrix, (self.__wrapped__, None)")])
@@ -809,3 +809,7 @@ V("C19-flatten-public-iter", "C19", ["C19.R1"], [(STRUCT, "        for value in 
 V("C19-withlayers-drops-self", "C19", ["C19.R2"], [(LMAP, "        new_layers = [*layers, self] if prepend else [self, *layers]", "        new_layers = [*layers, self] if prepend else [*self._layers, *layers]")], "seed C19-t2")
 V("C19-slice-ordering", "C19", ["C19.R4"], [(FORMULA, "            return self.__class__(self.__terms[key], _ordering=self.ordering)", "            return self.__class__(self.__terms[key])")], "seed C19-t3")
 V("C03-poly-names-constant", "C11", ["C11.R2"], [(CONTRASTS, "                self.NAME_ALIASES[d] if d in self.NAME_ALIASES else f\"^{d}\"\n", "                self.NAME_ALIASES.get(d, \"^{d}\")\n")], "seed C03-t1")
+V("C04-revert-duplicate-calls", "C04", ["C04.R4"], [(STATEFUL, "    stateful_nodes: list[tuple[str, ast.Call]] = []\n    for node in ast.walk(code):\n        if _is_stateful_transform(node, env):\n            stateful_nodes.append((format_expr(node), cast(ast.Call, node)))\n\n    # Mutate stateful nodes to pass in state from a shared dictionary.\n    for name, node in stateful_nodes:\n",
+  "    stateful_nodes: dict[str, ast.Call] = {}\n    for node in ast.walk(code):\n        if _is_stateful_transform(node, env):\n            stateful_nodes[format_expr(node)] = cast(ast.Call, node)\n\n    # Mutate stateful nodes to pass in state from a shared dictionary.\n    for name, node in stateful_nodes.items():\n")], "origin: revert 88fe04b")
+V("C18-revert-cache-reset", "C18", ["C18.R8"], [(BASE, "        self.factor_cache.clear()\n        self.encoded_cache.clear()\n        self.encoder_state_cache.clear()\n", "")], "origin: revert b35d9c5")
+V("C18-cache-reset-partial", "C18", ["C18.R8"], [(BASE, "        self.encoded_cache.clear()\n", "")])
